@@ -179,7 +179,7 @@ int main() {
   State st;
   std::string line;
   while (std::getline(std::cin, line)) {
-    std::cout << answer(st, line) << "\n";
+    std::cout << answer(st, line) << "\n" << std::flush;  // flushed: a crash must not lose answered lines
   }
   return 0;
 }
